@@ -15,7 +15,7 @@ use http_demultiplexer::HttpDemux;
 use std::collections::LinkedList;
 use std::io;
 use std::io::ErrorKind;
-use std::net::IpAddr;
+use std::net::{IpAddr, Ipv4Addr, Ipv6Addr, SocketAddr};
 use std::sync::Arc;
 
 const HEALTH_CHECK_AUTHORITY: &str = "_check";
@@ -236,7 +236,19 @@ impl downstream::PendingTcpConnectRequest for TcpConnection {
                         .unwrap_or(net_utils::PLAIN_HTTP_PORT_NUMBER)
                 };
 
-                TcpDestination::HostName((authority.host().to_string(), port))
+                // An IP literal stays an address even if the authority does not parse as
+                // a socket address as a whole (no port, or a userinfo part in front).
+                // `host()` keeps the brackets of an IPv6 literal.
+                let host = authority.host();
+                let ip = match host.strip_prefix('[').and_then(|x| x.strip_suffix(']')) {
+                    Some(x) => x.parse::<Ipv6Addr>().ok().map(IpAddr::V6),
+                    None => host.parse::<Ipv4Addr>().ok().map(IpAddr::V4),
+                };
+
+                match ip {
+                    Some(ip) => TcpDestination::Address(SocketAddr::new(ip, port)),
+                    None => TcpDestination::HostName((host.to_string(), port)),
+                }
             }
         })
     }
